@@ -72,6 +72,13 @@ func main() {
 		globalsMain()
 	case "c17-race":
 		c17RaceMain()
+	case "c17-globals":
+		c17GlobalsMain()
+	case "c17-cold":
+		if len(os.Args) < 4 {
+			usage()
+		}
+		c17ColdMain(os.Args[2], os.Args[3])
 	case "selfcheck":
 		selfCheck()
 		fmt.Println("selfcheck ok")
